@@ -12,6 +12,11 @@ def get_binding(name, namespace):
 
     for binding in namespace.bindings:
         if binding.name == name:
+            if isinstance(namespace, ast.Module) and name in ['exec', 'eval', 'locals', 'globals', 'vars']:
+                # A module level binding of this name may well be the builtin itself (eval = eval),
+                # or may never be executed, so treat uses of it like uses of the builtin
+                namespace.tainted = True
+
             return binding
 
     if not isinstance(namespace, ast.Module):
